@@ -373,7 +373,7 @@ func CheckedInTest3() Set {
 
 // All sets whose generated packages are linked into the runner (when they generate and compile).
 func Linked() []Set {
-	sets := []Set{Matrix(), OneofSint(), Wkt(), CheckedInTestpb(), CheckedInTest3(), Proto2Sub()}
+	sets := []Set{Matrix(), OneofSint(), Wkt(), CheckedInTestpb(), CheckedInTest3(), Proto2Sub(), ClassCov()}
 	// + random schema sets of the run's seed (VERIF_LINKED_RANDOM = "<seed>:<count>"), so that the codec, decode and
 	// reflection engines also run on schemas nobody wrote by hand
 	var seed uint64
